@@ -60,7 +60,7 @@ def index_ops(ctx):
 def run(ctx):
     for cfg, sim in configs(ctx):
         cases, st = ndarray.gen_cases(ctx, cfg, simulate=sim, timeout=3000)
-        for extra in ([], ["-cross"]) if "writes" in cfg else ([],):
+        for extra in ([], ["-cross"]) if cfg.startswith("NdArray_writes") else ([],):
             s, crash = ndarray.replay(ctx, cases, ["C02"], extra=extra)
             if crash:
                 ctx.report({"kind": "process-crash"}, "replay of %s crashed the process: %s" % (cfg, crash["stderr"][-800:]), crash)
